@@ -219,6 +219,12 @@ def gen_def(rng):
             s["zero"] = 0
             s["empty"] = ""
         if rng.random() < 0.2:
+            # attribute names are arbitrary strings: only a *leading* colon marks a generator option
+            s["xml:lang"] = "en"
+            s["a-b c"] = tg.RangeRandomizer(1, 2)
+            s["ratio:"] = 0.5
+            s["\u00fcn\u00ef"] = "{idx}"
+        if rng.random() < 0.2:
             s[":callback"] = _cb if rng.random() < 0.6 else _cb_nested
         if rng.random() < 0.15:
             s[":factory"] = Fac
